@@ -9,6 +9,7 @@ def main(tier):
     c.build('plain', ['c14'])
     c.build('asan', ['c14'])
     c.run_family('plain', 'c14', 'legacy-q' if quick else 'legacy-t', per_case_timeout=5)
+    c.run_family('plain', 'c14', 'order-q' if quick else 'order-t', per_case_timeout=5)
     c.run_family('plain', 'c14', 'extras', per_case_timeout=5)
     # sanitizer sub-family: every 7th (quick) / every 2nd (thorough) slice of the quick space, plus the extras
     n = c.families['c14/' + ('legacy-q' if quick else 'legacy-t')]['count']
@@ -16,6 +17,7 @@ def main(tier):
         c.run_family('asan', 'c14', 'legacy-q', lo=0, hi=min(n, 12000), per_case_timeout=20)
     else:
         c.run_family('asan', 'c14', 'legacy-q', per_case_timeout=20)
+    c.run_family('asan', 'c14', 'order-q', hi=2500 if quick else None, per_case_timeout=20)
     c.run_family('asan', 'c14', 'extras', per_case_timeout=20)
     return c.finish(
         rule='a case is one (model spec, vector of legacy spelling choices): index -> (spec, choices) is injective because a choice dimension that does '
@@ -28,7 +30,7 @@ def main(tier):
              'group; map_components first|last; public/private_interface in both orders x "none" spelled out|omitted; in/out patterns (in,out)|(out,in)|(out,out); '
              'units in the model | in the only component that uses them; cmeta:id | id; litre/metre | liter/meter (variable units, unit references); prefix of '
              'cellml:units declared on math | cn | model; with | without 1.x-only constructs (RDF on model/component/variable, reaction+variable_ref+role, '
-             'base_units="yes"). extras = 19 single constructs x 2 namespaces on a fixed document (RDF inside each remaining element, unit offset="0.0", '
+             'base_units="yes"). order = child order wherever CellML 1.x leaves it open, each order dimension over its coupled choices with the rest canonical: position of the relationship_ref(s) in the encapsulation group (before / after / between two component_ref trees / split) x 4 group forms x both relationship_ref orders; every order of the model child blocks [RDF, imports, units, components, groups, connections] x containment group x 1.x-only constructs; every order of the component child kinds [RDF, units, variables, reaction, math] x units inside the component; map_components between the map_variables; import children and import elements reversed x block orders (quick: identity, reverse and all rotations of each permutation on 2 rich specs + forests on <= 3 components + every 7th variable spec + every 3rd import spec + math; thorough: every permutation on all of them). extras = 19 single constructs x 2 namespaces on a fixed document (RDF inside each remaining element, unit offset="0.0", '
              'cmeta:id on group / connection, meter in cellml:units, a foreign prefix for the 1.x namespace, prefixed elements)',
         assumptions=[
             'in/out -> interface mapping per the 1.x semantics: public_interface in|out -> public, private_interface in|out -> private, both -> public_and_private, '
